@@ -11,7 +11,8 @@ CNT = {
 }
 
 
-def compact(events, ifi="vf0"):
+def compact(events, ifi="vf0", conf=False):
+    """conf=True keeps the driver-input events the conformance spec binds to environment actions."""
     out = []
     for e in events:
         ev = e["ev"]
@@ -20,12 +21,12 @@ def compact(events, ifi="vf0"):
             continue
         if ev == "reset":
             if "bad" in e:
-                out.append({"ev": "reset", "id": e["id"], "unicast": False, "cfglife": 0, "mode": "adv", "strict": False, "quiet": False, "min": 0, "max": 0, "t": 0})
+                out.append({"ev": "reset", "id": e["id"], "unicast": False, "cfglife": 0, "mode": "adv", "strict": False, "quiet": False, "min": 0, "max": 0, "fwd": True, "t": 0})
                 out.append({"ev": "panic", "t": 0})
                 continue
             out.append({"ev": "reset", "id": e["id"], "unicast": e["unicast"], "cfglife": e["cfglife"],
                         "mode": e["mode"], "strict": e.get("min", 0) >= 150000, "quiet": bool(e.get("quiet", False)),
-                        "min": e.get("min", 0), "max": e.get("max", 0), "t": 0})
+                        "min": e.get("min", 0), "max": e.get("max", 0), "fwd": e.get("fwd", True), "t": 0})
         elif ev == "dial":
             out.append({"ev": ev, "k": e["k"], "res": e["res"], "t": t})
         elif ev in ("done", "rcall"):
@@ -75,8 +76,18 @@ def compact(events, ifi="vf0"):
             out.append({"ev": ev, "life": e["life"], "body": e["body"], "t": t})
         elif ev == "cancel":
             out.append({"ev": ev, "term": e["term"], "t": t})
+        elif ev in ("hold", "release") and conf:
+            k = e.get("key", "")
+            out.append({"ev": ev, "dst": k.split("|", 1)[1] if "|" in k else k, "gate": k.split("|", 1)[0], "t": t})
         elif ev in ("link", "hold", "release", "quiet", "hang"):
             out.append({"ev": ev, "t": t})
+        elif ev == "arrive" and conf:
+            kind = e["kind"]
+            if kind.startswith("readerr"):
+                kind = "readerr"
+            out.append({"ev": "arrive", "kind": kind, "src": e["src"], "hl": e["hl"], "tag": e.get("tag", ""), "t": t})
+        elif ev == "flip" and conf:
+            out.append({"ev": "flip", "val": e["val"], "t": t})
         elif ev == "advance":
             out.append({"ev": ev, "to": e["to"], "t": t})
         elif ev == "ret":
